@@ -148,6 +148,23 @@ func (s *Service) Process(ctx context.Context, request []byte) ([]byte, error) {
 	return s.Codec.Encode(result, serviceContext)
 }
 
+// ArgumentValue returns arg as the i-th argument of a call of a function of type ft.
+// A nil arg (a nil interface value) becomes the zero value of the parameter type,
+// reflect.ValueOf(nil) is not a valid argument.
+func ArgumentValue(ft reflect.Type, i int, arg interface{}) reflect.Value {
+	if arg != nil {
+		return reflect.ValueOf(arg)
+	}
+	n := ft.NumIn()
+	switch {
+	case ft.IsVariadic() && i >= n-1:
+		return reflect.Zero(ft.In(n - 1).Elem())
+	case i < n:
+		return reflect.Zero(ft.In(i))
+	}
+	return reflect.ValueOf(arg)
+}
+
 // Execute the method and returns the results.
 func (s *Service) Execute(ctx context.Context, name string, args []interface{}) (result []interface{}, err error) {
 	serviceContext := GetServiceContext(ctx)
@@ -159,20 +176,20 @@ func (s *Service) Execute(ctx context.Context, name string, args []interface{}) 
 		return method.(missingMethod)(name, args)
 	}
 	n := len(args)
+	f := method.Func()
 	var in []reflect.Value
 	if method.PassContext() {
 		in = make([]reflect.Value, n+1)
 		in[0] = reflect.ValueOf(ctx)
 		for i := 0; i < n; i++ {
-			in[i+1] = reflect.ValueOf(args[i])
+			in[i+1] = ArgumentValue(f.Type(), i+1, args[i])
 		}
 	} else {
 		in = make([]reflect.Value, n)
 		for i := 0; i < n; i++ {
-			in[i] = reflect.ValueOf(args[i])
+			in[i] = ArgumentValue(f.Type(), i, args[i])
 		}
 	}
-	f := method.Func()
 	out := f.Call(in)
 	n = len(out)
 	if method.ReturnError() {
